@@ -259,6 +259,178 @@ Proof.
       cbn [rev map]. rewrite <- app_assoc. reflexivity.
 Qed.
 
+(* ---- the same with a continuation, and what happens at a field that exceeds the limit *)
+
+Lemma run_rows_more frows : forall out term more,
+  is_term term -> Forall frow_ok frows ->
+  run' r0 out (rows_text term frows ++ more) = run' r0 (rev (map (map snd) frows) ++ out) more.
+Proof.
+  induction frows as [|fs rest IH]; intros out term more Ht Hok; [reflexivity|].
+  inversion Hok as [|fs' rest' [Hfs Hne] Hrest]; subst.
+  unfold rows_text. cbn [map concat]. fold (rows_text term rest). rewrite <- !app_assoc.
+  destruct fs as [|p fs].
+  - change (row_text []) with (@nil char). cbn [app]. unfold r0 at 1.
+    rewrite run_term_empty by exact Ht. rewrite IH by assumption.
+    cbn [rev map]. rewrite <- app_assoc. reflexivity.
+  - unfold r0 at 1. rewrite run_fields; [|discriminate|left; reflexivity|exact Hfs|exact Ht|intros [_ E]; exact (Hne E)].
+    rewrite IH by assumption. rewrite app_nil_r, frev_rev, rev_involutive.
+    cbn [rev map]. rewrite <- app_assoc. reflexivity.
+Qed.
+
+Lemma rows_text_app term a b : rows_text term (a ++ b) = rows_text term a ++ rows_text term b.
+Proof. unfold rows_text. rewrite map_app, concat_app. reflexivity. Qed.
+
+Lemma escape_app a b : escape' (a ++ b) = escape' a ++ escape' b.
+Proof.
+  induction a as [|c a IH]; [reflexivity|]. cbn [app escape_field]. rewrite IH.
+  destruct (c =? quote); reflexivity.
+Qed.
+
+Lemma escape_cons_nonnil c s : escape' (c :: s) <> [].
+Proof. cbn [escape_field]. destruct (c =? quote); discriminate. Qed.
+
+Lemma run_quoted_body_gen cs : forall f n rw out rest,
+  rest <> [] -> n + N.of_nat (length cs) <= lim ->
+  run' (mkR InQuoted f n rw) out (escape' cs ++ rest)
+  = run' (mkR InQuoted (rev cs ++ f) (n + N.of_nat (length cs)) rw) out rest.
+Proof.
+  induction cs as [|c cs IH]; intros f n rw out rest Hr Hb.
+  - cbn. rewrite N.add_0_r. reflexivity.
+  - assert (Hne : escape' cs ++ rest <> []).
+    { intros E. apply app_eq_nil in E. destruct E as [_ E]. exact (Hr E). }
+    cbn [escape_field length] in *. rewrite Nat2N.inj_succ in *.
+    destruct (c =? quote) eqn:Ec.
+    + apply N.eqb_eq in Ec. subst c. cbn [app].
+      rewrite run_inq_quote; [|lia|exact Hne].
+      rewrite IH by (auto; lia). cbn [rev]. rewrite <- app_assoc. cbn [app].
+      f_equal. f_equal. lia.
+    + cbn [app]. rewrite run_inq_char; [|exact Ec|lia].
+      rewrite IH by (auto; lia). cbn [rev]. rewrite <- app_assoc. cbn [app].
+      f_equal. f_equal. lia.
+Qed.
+
+Lemma run_inq_overflow f rw out c s2 tail :
+  run' (mkR InQuoted f lim rw) out (escape' (c :: s2) ++ tail) = Err EFieldLimit.
+Proof.
+  cbn [escape_field]. destruct (c =? quote) eqn:Ec.
+  - apply N.eqb_eq in Ec. subst c. cbn [app run]. unfold step at 1. cbn [md]. rewrite N.eqb_refl.
+    rewrite (eol_after_plain quote _ Hq_nl) by discriminate.
+    unfold step at 1. unfold set_md. cbn [md fld flen row]. rewrite N.eqb_refl.
+    unfold add_char. cbn [flen]. rewrite N.leb_refl. reflexivity.
+  - cbn [app run]. unfold step at 1. cbn [md]. rewrite Ec. unfold add_char. cbn [flen].
+    rewrite N.leb_refl. reflexivity.
+Qed.
+
+Lemma run_bare_overflow m f rw out c tail :
+  m = InField \/ at_start m -> special c = false ->
+  run' (mkR m f lim rw) out (c :: tail) = Err EFieldLimit.
+Proof.
+  intros Hm Hc. destruct (special_false c Hc) as [H1 [H2 H3]].
+  cbn [run]. destruct Hm as [-> | [-> | ->]]; unfold step, step_start_field; cbn [md]; rewrite ?H3, ?H2, ?H1;
+    unfold add_char, set_md; cbn [flen]; rewrite N.leb_refl; reflexivity.
+Qed.
+
+Lemma split_at_lim (s : str) :
+  lim < N.of_nat (length s) -> exists s1 c s2, s = s1 ++ c :: s2 /\ N.of_nat (length s1) = lim.
+Proof.
+  intros H. set (k := N.to_nat lim).
+  assert (Hk : (k < length s)%nat) by (unfold k; lia).
+  destruct (skipn k s) as [|c s2] eqn:Es.
+  - apply (f_equal (@length _)) in Es. rewrite skipn_length in Es. cbn in Es. lia.
+  - exists (firstn k s), c, s2. split.
+    + rewrite <- Es. symmetry. apply firstn_skipn.
+    + rewrite firstn_length. unfold k. lia.
+Qed.
+
+Lemma run_field_overflow p : forall m rw out tail,
+  at_start m -> lim < N.of_nat (length (snd p)) ->
+  fst p = true \/ forallb (fun c => negb (special c)) (snd p) = true ->
+  run' (mkR m [] 0 rw) out (wfield p ++ tail) = Err EFieldLimit.
+Proof.
+  destruct p as [q s]. cbn [fst snd]. intros m rw out tail Hm Hlen Hq.
+  destruct (split_at_lim s Hlen) as [s1 [c [s2 [Es Hl1]]]]. subst s. unfold wfield. cbn [fst snd].
+  destruct q.
+  - (* quoted *)
+    rewrite escape_app. cbn [app]. rewrite <- !app_assoc.
+    assert (E1 : forall X, X <> [] -> run' (mkR m [] 0 rw) out (quote :: X) = run' (mkR InQuoted [] 0 rw) out X).
+    { intros X HX. cbn [run]. rewrite (eol_after_plain quote _ Hq_nl HX).
+      destruct Hm as [-> | ->]; unfold step, step_start_field; cbn [md]; rewrite ?Hq_nl, N.eqb_refl; reflexivity. }
+    rewrite E1.
+    + rewrite run_quoted_body_gen; [| |lia].
+      * rewrite N.add_0_l, Hl1. apply run_inq_overflow.
+      * intros E. apply app_eq_nil in E. destruct E as [E _]. exact (escape_cons_nonnil c s2 E).
+    + intros E. apply app_eq_nil in E. destruct E as [_ E]. apply app_eq_nil in E. destruct E as [E _].
+      exact (escape_cons_nonnil c s2 E).
+  - (* bare *)
+    destruct Hq as [Hq|Hq]; [discriminate|].
+    rewrite forallb_app in Hq. apply andb_true_iff in Hq. destruct Hq as [Hs1 Hcs2].
+    cbn [forallb] in Hcs2. apply andb_true_iff in Hcs2. destruct Hcs2 as [Hc _]. apply negb_true_iff in Hc.
+    rewrite <- app_assoc. cbn [app].
+    destruct s1 as [|c0 s1].
+    + cbn [length] in Hl1. cbn [app]. change (N.of_nat 0) with 0 in Hl1.
+      rewrite Hl1. apply run_bare_overflow; [right; exact Hm|]. exact Hc.
+    + cbn [forallb] in Hs1. apply andb_true_iff in Hs1. destruct Hs1 as [Hc0 Hs1].
+      apply negb_true_iff in Hc0. destruct (special_false c0 Hc0) as [H1 [H2 H3]].
+      cbn [length] in Hl1. rewrite Nat2N.inj_succ in Hl1. cbn [app].
+      assert (E1 : run' (mkR m [] 0 rw) out (c0 :: s1 ++ c :: s2 ++ tail)
+                   = run' (mkR InField [c0] 1 rw) out (s1 ++ c :: s2 ++ tail)).
+      { cbn [run]. rewrite (eol_after_plain c0 _ H3) by (destruct s1; discriminate).
+        assert (Hl : (lim <=? 0) = false) by (apply leb_gt_false; lia).
+        destruct Hm as [-> | ->]; unfold step, step_start_field; cbn [md]; rewrite ?H3, H2, H1;
+          unfold add_char, set_md; cbn [flen fld md row]; rewrite Hl; reflexivity. }
+      rewrite E1. rewrite run_infield_body; [|exact Hs1|discriminate|lia].
+      replace (1 + N.of_nat (length s1)) with lim by lia.
+      apply run_bare_overflow; [left; reflexivity|exact Hc].
+Qed.
+
+Lemma row_text_cons p l : l <> [] -> row_text (p :: l) = wfield p ++ delim :: row_text l.
+Proof. destruct l as [|p2 l]; [congruence|reflexivity]. Qed.
+
+Lemma run_fields_prefix fs1 : forall m rw out p fs2 more,
+  at_start m -> Forall field_ok fs1 -> more <> [] ->
+  exists m' rw', at_start m' /\
+    run' (mkR m [] 0 rw) out (row_text (fs1 ++ p :: fs2) ++ more)
+    = run' (mkR m' [] 0 rw') out (row_text (p :: fs2) ++ more).
+Proof.
+  induction fs1 as [|p1 fs1 IH]; intros m rw out p fs2 more Hm Hok Hmore.
+  - exists m, rw. split; [exact Hm|reflexivity].
+  - inversion Hok as [|p1' fs1' Hp1 Hfs1]; subst. cbn [app].
+    rewrite row_text_cons by (destruct fs1; discriminate). rewrite <- app_assoc. cbn [app].
+    rewrite run_field by (auto; discriminate).
+    assert (Hrest : row_text (fs1 ++ p :: fs2) ++ more <> []).
+    { intros E. apply app_eq_nil in E. destruct E as [_ E]. exact (Hmore E). }
+    rewrite run_delim; [| |exact Hrest].
+    + apply IH; [right; reflexivity|exact Hfs1|exact Hmore].
+    + destruct p1 as [q cs]. unfold after_field, field_end. cbn [fst snd].
+      destruct q; [tauto|]. destruct cs; [|tauto]. destruct Hm as [-> | ->]; tauto.
+Qed.
+
+Lemma row_text_head p fs2 more : exists tail, row_text (p :: fs2) ++ more = wfield p ++ tail.
+Proof.
+  destruct fs2 as [|p2 fs2].
+  - exists more. reflexivity.
+  - exists (delim :: row_text (p2 :: fs2) ++ more). rewrite row_text_cons by discriminate.
+    rewrite <- app_assoc. reflexivity.
+Qed.
+
+Lemma Forall_decidable {A} (P : A -> Prop) : (forall x, P x \/ ~ P x) -> forall l, Forall P l \/ ~ Forall P l.
+Proof.
+  intros Hd l. induction l as [|x l IH]; [left; constructor|].
+  destruct (Hd x) as [Hx|Hx]; [|right; intros H; inversion H; contradiction].
+  destruct IH as [Hl|Hl]; [left; constructor; assumption|right; intros H; inversion H; contradiction].
+Qed.
+
+Lemma Forall_split_first {A} (P : A -> Prop) : (forall x, P x \/ ~ P x) -> forall l,
+  ~ Forall P l -> exists l1 x l2, l = l1 ++ x :: l2 /\ Forall P l1 /\ ~ P x.
+Proof.
+  intros Hd l. induction l as [|x l IH]; intros Hn; [exfalso; apply Hn; constructor|].
+  destruct (Hd x) as [Hx|Hx].
+  - destruct IH as [l1 [y [l2 [E [H1 H2]]]]].
+    + intros Hl. apply Hn. constructor; assumption.
+    + exists (x :: l1), y, l2. split; [rewrite E; reflexivity|]. split; [constructor; assumption|exact H2].
+  - exists [], x, l. split; [reflexivity|]. split; [constructor|exact Hx].
+Qed.
+
 (* ---- universal-newline translation (a file opened with newline=None) *)
 
 Lemma list_ind2 {A} (P : list A -> Prop) :
@@ -560,6 +732,52 @@ Proof.
   - apply Forall_map. revert Hok. apply Forall_impl. exact frow_ok_trf.
 Qed.
 
+Lemma len_ok_decidable s : len_ok s \/ ~ len_ok s.
+Proof. unfold len_ok. destruct (N.leb_spec (N.of_nat (length s)) lim); [left; assumption|right; lia]. Qed.
+
+(* the guard is exact: as soon as one field is longer than the limit the reader refuses the
+   text the writer produced (whatever else the rows contain) *)
+Theorem csv_limit_exceeded_gen rows :
+  ~ Forall (Forall len_ok) rows ->
+  csv_read delim quote lim (csv_write delim quote term rows) = Err EFieldLimit.
+Proof.
+  intros Hn.
+  destruct (Forall_split_first _ (Forall_decidable _ len_ok_decidable) rows Hn) as [pre [r [post [Er [Hpre Hr]]]]].
+  destruct (Forall_split_first _ len_ok_decidable r Hr) as [f1 [s [f2 [Ef [Hf1 Hs]]]]].
+  assert (Hlen : lim < N.of_nat (length s)) by (unfold len_ok in Hs; lia).
+  unfold csv_read. rewrite csv_write_flag. subst rows. rewrite map_app. cbn [map].
+  rewrite rows_text_app. rewrite run_rows_more.
+  - unfold rows_text at 1. cbn [map concat]. rewrite <- !app_assoc.
+    assert (Efl : flag_row r = map flag_field f1 ++ flag_field s :: map flag_field f2).
+    { assert (Hne : r <> [[]]).
+      { intros E. rewrite E in Ef. destruct f1 as [|a f1]; [|destruct f1; discriminate].
+        cbn [app] in Ef. inversion Ef as [[E1 E2]]. subst s. cbn in Hlen. lia. }
+      assert (Hfm : flag_row r = map flag_field r).
+      { destruct r as [|a r']; [reflexivity|]. destruct a; [destruct r'; [exfalso; apply Hne; reflexivity|reflexivity]|reflexivity]. }
+      rewrite Hfm, Ef, map_app. reflexivity. }
+    rewrite Efl. unfold r0 at 1.
+    destruct (run_fields_prefix (map flag_field f1) StartRecord [] (rev (map (map snd) (map flag_row pre)) ++ [])
+                (flag_field s) (map flag_field f2) (term ++ concat (map (fun fs => row_text fs ++ term) (map flag_row post))))
+      as [m' [rw' [Hm' E]]].
+    + left. reflexivity.
+    + apply Forall_map. revert Hf1. apply Forall_impl. exact field_ok_flag.
+    + rewrite Hterm. discriminate.
+    + rewrite E. destruct (row_text_head (flag_field s) (map flag_field f2)
+                             (term ++ concat (map (fun fs => row_text fs ++ term) (map flag_row post)))) as [tail Et].
+      rewrite Et. apply run_field_overflow; [exact Hm'|exact Hlen|].
+      unfold flag_field. cbn [fst snd]. destruct (existsb special s) eqn:Ex; [left; reflexivity|right; apply existsb_false_forallb, Ex].
+  - left. exact Hterm.
+  - apply Forall_map. revert Hpre. apply Forall_impl. exact frow_ok_flag.
+Qed.
+
+Corollary csv_roundtrip_iff_gen rows :
+  csv_read delim quote lim (csv_write delim quote term rows) = Ok rows <-> Forall (Forall len_ok) rows.
+Proof.
+  split; [|apply csv_roundtrip_gen].
+  intros H. destruct (Forall_decidable _ (Forall_decidable _ len_ok_decidable) rows) as [Hy|Hn]; [exact Hy|].
+  rewrite (csv_limit_exceeded_gen rows Hn) in H. discriminate.
+Qed.
+
 End Writer.
 
 End CsvFacts.
@@ -645,3 +863,11 @@ Proof.
   assert (H : csv_rd (csv_wr [[big_field]]) = Err EFieldLimit) by (vm_compute; reflexivity).
   split; [|exact H]. intros Hall. rewrite Hall in H. discriminate.
 Qed.
+
+(* the guard is exact *)
+Theorem csv_limit_exceeded rows :
+  ~ Forall (Forall fits) rows -> csv_rd (csv_wr rows) = Err EFieldLimit.
+Proof. exact (csv_limit_exceeded_gen _ _ _ csv_q_nl csv_d_nl csv_dq _ csv_term rows). Qed.
+
+Theorem csv_roundtrip_iff rows : csv_rd (csv_wr rows) = Ok rows <-> Forall (Forall fits) rows.
+Proof. exact (csv_roundtrip_iff_gen _ _ _ csv_q_nl csv_d_nl csv_dq _ csv_term rows). Qed.
